@@ -139,6 +139,9 @@ pub fn run(ctx: &mut Ctx) {
             }
             let h = buf[a.off + 4..a.off + 4 + a.len].to_vec();
             let o = Opts { creds: vec![creds.clone()], police: vec![], deep: false, typed: false };
+            // the genuine message is validated first, on this thread, under these credentials: what
+            // was learnt from it says nothing about the forged ones that follow
+            check_buffer(ctx, &buf, &o);
             for variant in 0..3 {
                 let mut m = buf[..a.off].to_vec();
                 match variant {
@@ -250,6 +253,44 @@ pub fn run(ctx: &mut Ctx) {
             }
         }
         ctx.require("many-attributes-before-tail-accepted", 50);
+    }
+    // ---- every one of the 65 536 type codes as an attribute appended behind a MESSAGE-INTEGRITY, a
+    //      MESSAGE-INTEGRITY-SHA256 and a FINGERPRINT (length fixed up): which types may follow does
+    //      not depend on anything but the rule ----
+    {
+        let creds = RefCreds::Short("sweep".into());
+        let key = creds.key();
+        let bases: Vec<Vec<u8>> = [vec![Seal::Sha1], vec![Seal::Sha256(32)], vec![Seal::Fingerprint], vec![Seal::Sha1, Seal::Fingerprint]]
+            .iter()
+            .map(|tail| {
+                let mut b = encode(0, 1, &[0x5e; 12], &[Tlv::new(0x8022, b"sweep".to_vec())]);
+                for s in tail {
+                    seal(&mut b, *s, &key);
+                }
+                b
+            })
+            .collect();
+        let o = Opts { creds: vec![creds.clone()], police: vec![], deep: false, typed: false };
+        for t in 0..=0xffffu32 {
+            idx += 1;
+            if !ctx.mine(idx) {
+                continue;
+            }
+            // quick: every type behind one base (rotating), thorough: behind all four
+            for (bi, base) in bases.iter().enumerate() {
+                if quick && bi != (t as usize) % bases.len() {
+                    continue;
+                }
+                let mut m = base.clone();
+                push_tlv(&mut m, &Tlv::new(t as u16, vec![0x77; (t as usize % 3) * 4]));
+                let l = m.len() - 20;
+                set_len(&mut m, l);
+                check_buffer(ctx, &m, &o);
+                ctx.eval();
+            }
+            ctx.count("types-appended-behind-a-sealing-attribute");
+        }
+        ctx.require("types-appended-behind-a-sealing-attribute", 65_536);
     }
     // ---- grammar stream + skeletons (mutants included: accepted ones must follow the rule too)
     let n = ctx.n(600_000, 8_000_000);
